@@ -441,12 +441,12 @@ where
 // delta debugging for byte cases
 
 /// Minimise `input` while `pred` (same oracle clause still fails) holds.
-pub fn minimise_bytes(input: &[u8], pred: &dyn Fn(&[u8]) -> bool) -> Vec<u8> {
+pub fn minimise_bytes(input: &[u8], pred: &dyn Fn(&[u8]) -> bool, budget: usize) -> Vec<u8> {
     let mut cur = input.to_vec();
     if !pred(&cur) {
         return cur;
     }
-    let mut budget = 20_000usize;
+    let mut budget = budget;
     loop {
         let mut progress = false;
         // 1. drop tokens
@@ -457,7 +457,10 @@ pub fn minimise_bytes(input: &[u8], pred: &dyn Fn(&[u8]) -> bool) -> Vec<u8> {
                 let mut t2 = toks.clone();
                 t2.remove(i);
                 let cand = t2.join(&b'-');
-                budget = budget.saturating_sub(1);
+                if budget == 0 {
+                    return cur;
+                }
+                budget -= 1;
                 if cand.len() < cur.len() && pred(&cand) {
                     cur = cand;
                     progress = true;
@@ -472,7 +475,10 @@ pub fn minimise_bytes(input: &[u8], pred: &dyn Fn(&[u8]) -> bool) -> Vec<u8> {
         for i in (0..cur.len()).rev() {
             let mut c2 = cur.clone();
             c2.remove(i);
-            budget = budget.saturating_sub(1);
+            if budget == 0 {
+                return cur;
+            }
+            budget -= 1;
             if pred(&c2) {
                 cur = c2;
                 progress = true;
@@ -502,7 +508,10 @@ pub fn minimise_bytes(input: &[u8], pred: &dyn Fn(&[u8]) -> bool) -> Vec<u8> {
                 }
                 let mut c2 = cur.clone();
                 c2[i] = *r;
-                budget = budget.saturating_sub(1);
+                if budget == 0 {
+                    return cur;
+                }
+                budget -= 1;
                 if pred(&c2) {
                     cur = c2;
                     progress = true;
@@ -522,7 +531,7 @@ pub fn minimise_bytes(input: &[u8], pred: &dyn Fn(&[u8]) -> bool) -> Vec<u8> {
 
 #[derive(Clone, Debug)]
 pub struct Known {
-    pub property: String,
+    pub properties: Vec<String>,
     pub signature: String,
     pub status: String,
     pub what: String,
@@ -535,8 +544,16 @@ pub fn load_known(cfg: &Cfg) -> Vec<Known> {
     let mut out = vec![];
     if let Some(a) = v.get("findings").and_then(|a| a.as_array()) {
         for e in a {
+            // an entry names one property ("property") or several ("properties")
+            let mut props: Vec<String> = e["properties"]
+                .as_array()
+                .map(|a| a.iter().filter_map(|x| x.as_str().map(|s| s.to_string())).collect())
+                .unwrap_or_default();
+            if let Some(p) = e["property"].as_str() {
+                props.push(p.to_string());
+            }
             out.push(Known {
-                property: e["property"].as_str().unwrap_or("").to_string(),
+                properties: props,
                 signature: e["signature"].as_str().unwrap_or("").to_string(),
                 status: e["status"].as_str().unwrap_or("").to_string(),
                 what: e["what"].as_str().unwrap_or("").to_string(),
@@ -577,7 +594,9 @@ pub fn finish(cfg: &Cfg, mut st: Stats, rule: &str, assumptions: &[&str], replay
                     replay(&c, &mut s);
                     s.failures.contains_key(&sig)
                 };
-                let m = minimise_bytes(&b, &pred);
+                // failures that need a child process per evaluation (hang / process death) get a small budget
+                let budget = if f.sig.starts_with("hang") || f.sig.contains("process-death") { 12 } else { 20_000 };
+                let m = minimise_bytes(&b, &pred, budget);
                 if m != b {
                     let mut c = f.case.clone();
                     c["hex"] = json!(hex(&m));
@@ -592,7 +611,7 @@ pub fn finish(cfg: &Cfg, mut st: Stats, rule: &str, assumptions: &[&str], replay
         }
         let k = known
             .iter()
-            .find(|k| k.property == cfg.prop && k.signature == f.sig && k.status == "open");
+            .find(|k| k.properties.contains(&cfg.prop) && k.signature == f.sig && k.status == "open");
         if let Some(k) = k {
             known_hits += 1;
             lines.push(format!("KNOWN-FINDING: property={} {} [{}]", cfg.prop, k.what, f.sig));
